@@ -27,10 +27,11 @@ Inductive node :=
 | NSrc (name : str) (paths : list str)
 | NPSrc (name : str) (vals : list str)
 | NS2S (name : str) (up : nat) (upport : str)
+| NMapTags (name : str) (up : nat) (upport : str) (key : str)    (* MapToTags with the map function path -> {key: basename path} *)
 | NProc (p : proc).
 
 Definition node_name (n : node) : str :=
-  match n with NSrc a _ | NPSrc a _ | NS2S a _ _ => a | NProc p => p_name p end.
+  match n with NSrc a _ | NPSrc a _ | NS2S a _ _ | NMapTags a _ _ _ => a | NProc p => p_name p end.
 
 Definition fsmap := list (str * str).
 Definition fs_get (f : fsmap) (p : str) : option str := lookup p f.
@@ -147,15 +148,43 @@ Definition out_streaming (pattern port : str) : bool :=
 Definition in_join (pattern port : str) : bool :=
   match lookup port (port_infos pattern) with Some pi => match pjoin pi with Some _ => true | None => false end | None => false end.
 
-(* the files visible to commands: real ones, and bytes travelling through FIFOs *)
-Record world := { w_fs : fsmap; w_vfs : fsmap }.
+(* audit records: process, command, params, tags, out files, upstream records keyed by input path (IDs and times are not modelled) *)
+Inductive arec := ARec (proc cmd : str) (params tags outfiles : list (str * str)) (up : list (str * arec)).
+Definition empty_rec : arec := ARec [] [] [] [] [] [].
+Definition rec_tags (r : arec) : list (str * str) := match r with ARec _ _ _ t _ _ => t end.
+Definition rec_with_tags (r : arec) (t : list (str * str)) : arec := match r with ARec p c ps _ o u => ARec p c ps t o u end.
+
+(* FileIP.AddTag: a different non-empty value for an existing key is fatal; otherwise set *)
+Definition add_tag (tags : list (str * str)) (kv : str * str) : option (list (str * str)) :=
+  match lookup (fst kv) tags with
+  | Some v => match v with
+              | [] => Some (kv :: filter (fun x => negb (str_eqb (fst x) (fst kv))) tags)
+              | _ => if str_eqb v (snd kv) then Some tags else None
+              end
+  | None => Some (tags ++ [kv])
+  end.
+Definition add_tags (tags : list (str * str)) (kvs : list (str * str)) : option (list (str * str)) :=
+  fold_left (fun acc kv => match acc with Some t => add_tag t kv | None => None end) kvs (Some tags).
+
+(* the files visible to commands: real ones, and bytes travelling through FIFOs; the audit record known for each path *)
+Record world := { w_fs : fsmap; w_vfs : fsmap; w_aud : list (str * arec) }.
+Definition rec_of (w : world) (p : str) : arec := match lookup p (w_aud w) with Some r => r | None => empty_rec end.
+Definition aud_set (a : list (str * arec)) (p : str) (r : arec) : list (str * arec) :=
+  (p, r) :: filter (fun kv => negb (str_eqb (fst kv) p)) a.
+
+(* one output of a successful task: its bytes (to the file system or into the FIFO) and its audit record *)
+Definition set_out (c : str) (r : arec) (w : world) (o : str * (bool * str)) : world :=
+  if fst (snd o)
+  then {| w_fs := w_fs w; w_vfs := fs_set (w_vfs w) (snd (snd o)) c; w_aud := aud_set (w_aud w) (snd (snd o)) r |}
+  else {| w_fs := fs_set (w_fs w) (snd (snd o)) c; w_vfs := w_vfs w; w_aud := aud_set (w_aud w) (snd (snd o)) r |}.
 
 Definition first_in_path (ins : list (str * item)) : list (str * str) :=
   flat_map (fun kv => match snd kv with IPath q => [(fst kv, q)] | ISub _ => [] end) ins.
 
 Definition run_one (p : proc) (w : world) (ins : list (str * item)) (pars : list (str * str)) : trec * world :=
   let ins1 := first_in_path ins in
-  let tags : list (str * str) := [] in
+  let in_tags := fun (it : item) => match it with IPath q => rec_tags (rec_of w q) | ISub _ => [] end in
+  let tags : list (str * str) := flat_map (fun kv => map (fun t => (fst kv ++ dotc :: fst t, snd t)) (in_tags (snd kv))) ins in
   let mk st c outs cmd := {| tr_proc := p_name p; tr_ins := ins; tr_pars := pars; tr_outs := outs;
                              tr_status := st; tr_content := c; tr_command := cmd; tr_emitted := true |} in
   (* parameters must be non-empty wherever the command pattern uses them; checked by format_command *)
@@ -182,14 +211,18 @@ Definition run_one (p : proc) (w : world) (ins : list (str * item)) (pars : list
     let inputs := map (fun q => match fs_get (w_fs w) q with Some c => Some c | None => fs_get (w_vfs w) q end) inpaths in
     let needs_inputs := match p_kind p with KWrite => false | _ => true end in
     let fails := match p_fail p with FNone => false | _ => contains (p_failkey p) (task_key p ins pars) end in
+    (* the tags of the outputs: the union of the tags of the in-IPs (carriers of sub-streams contribute nothing) *)
+    let out_tags := fold_left (fun acc kv => match acc with Some t => add_tags t (in_tags (snd kv)) | None => None end) ins (Some []) in
     if (needs_inputs && existsb (fun x => match x with None => true | Some _ => false end) inputs) || fails
+       || match out_tags with None => true | Some _ => false end
     then (mk TFail [] outs cmd, w)
     else
       let c := content (p_kind p) (p_tok p) pars (map (fun x => match x with Some c => c | None => [] end) inputs) in
-      let w1 := fold_left (fun (w : world) (o : str * (bool * str)) => if fst (snd o)
-                                      then {| w_fs := w_fs w; w_vfs := fs_set (w_vfs w) (snd (snd o)) c |}
-                                      else {| w_fs := fs_set (w_fs w) (snd (snd o)) c; w_vfs := w_vfs w |}) outs w in
-      let w2 := fold_left (fun (w : world) (x : str) => {| w_fs := fs_set (w_fs w) x (p_tok p ++ [nl]); w_vfs := w_vfs w |}) (p_extra p) w1 in
+      let r := ARec (p_name p) (match cmd with Ok x => x | Fail => [] end) pars (match out_tags with Some t => t | None => [] end)
+                    (map (fun o => (fst o, snd (snd o))) outs)
+                    (flat_map (fun kv => map (fun q => (q, rec_of w q)) (item_paths (snd kv))) ins) in
+      let w1 := fold_left (set_out c r) outs w in
+      let w2 := fold_left (fun (w : world) (x : str) => {| w_fs := fs_set (w_fs w) x (p_tok p ++ [nl]); w_vfs := w_vfs w; w_aud := w_aud w |}) (p_extra p) w1 in
       (mk TRun c outs cmd, w2)
   end.
 
@@ -232,7 +265,7 @@ Definition eval_proc (idx : nat) (p : proc) (a : acc) : acc :=
 Definition ups_of (n : node) : list nat :=
   match n with
   | NSrc _ _ | NPSrc _ _ => []
-  | NS2S _ u _ => [u]
+  | NS2S _ u _ | NMapTags _ u _ _ => [u]
   | NProc p => flat_map (fun i => map fst (ip_ups i)) (p_ins p)
                ++ flat_map (fun q => match snd q with PUp n => [n] | _ => [] end) (p_pars p)
   end.
@@ -264,16 +297,25 @@ Fixpoint eval_from (idx : nat) (nodes : list node) (sel : list nat) (a : acc) : 
       | NPSrc _ vals => {| a_streams := (idx, s2l "out", map IPath vals) :: a_streams a; a_world := a_world a; a_tasks := a_tasks a; a_failed := a_failed a |}
       | NS2S _ u up => {| a_streams := (idx, s2l "substream", [ISub (flat_map item_paths (st_get (a_streams a) u up))]) :: a_streams a;
                           a_world := a_world a; a_tasks := a_tasks a; a_failed := a_failed a |}
+      | NMapTags _ u up key =>
+        let items := flat_map item_paths (st_get (a_streams a) u up) in
+        let step := fun (st : world * bool) (q : str) =>
+          match add_tag (rec_tags (rec_of (fst st) q)) (key, base q) with
+          | Some t => ({| w_fs := w_fs (fst st); w_vfs := w_vfs (fst st); w_aud := aud_set (w_aud (fst st)) q (rec_with_tags (rec_of (fst st) q) t) |}, snd st)
+          | None => (fst st, true)
+          end in
+        let '(w', bad) := fold_left step items (a_world a, false) in
+        {| a_streams := (idx, s2l "out", map IPath items) :: a_streams a; a_world := w'; a_tasks := a_tasks a; a_failed := a_failed a || bad |}
       | NProc p => eval_proc idx p a
       end in
     eval_from (S idx) r sel a'
   end.
 
-Inductive wfres := WNotReady | WDone (tasks : list trec) (fs : fsmap) (failed : bool).
+Inductive wfres := WNotReady | WDone (tasks : list trec) (fs : fsmap) (failed : bool) (aud : list (str * arec)).
 
 Definition eval (nodes : list node) (targets : list nat) (f0 : fsmap) : wfres :=
   let sel := selected nodes targets in
   if negb (forallb (fun i => match nth_error nodes i with Some n => node_ready n | None => true end) sel)
   then WNotReady else
-  let a := eval_from 0 nodes sel {| a_streams := []; a_world := {| w_fs := f0; w_vfs := [] |}; a_tasks := []; a_failed := false |} in
-  WDone (a_tasks a) (w_fs (a_world a)) (a_failed a).
+  let a := eval_from 0 nodes sel {| a_streams := []; a_world := {| w_fs := f0; w_vfs := []; w_aud := [] |}; a_tasks := []; a_failed := false |} in
+  WDone (a_tasks a) (w_fs (a_world a)) (a_failed a) (w_aud (a_world a)).
